@@ -45,6 +45,7 @@ Record eff_del (s s' : st) (k : key) : Prop := mkEffDel {
 Record eff_fire (s s' : st) : Prop := mkEffFire {
   ef_sref : forall k, sref s' k = sref s k \/
                       (sref s' k = None /\ exists d, In (d, k) (pending s) /\ (d <= now s)%Z);
+  ef_due : forall d k, In (d, k) (pending s) -> (d <= now s)%Z -> sref s' k = None;
   ef_pending : pending s' = filter (fun e => negb (fst e <=? now s)%Z) (pending s);
   ef_supply : supply s' = supply s;
   ef_now : now s' = now s;
@@ -210,10 +211,11 @@ Lemma fire_eff : forall l s, plan s = [] -> Kcs s ->
   Kcs s' /\ plan s' = [] /\ heap s' = heap s /\ pending s' = pending s /\ supply s' = supply s /\
   now s' = now s /\ conf s' = conf s /\
   (forall k, sref s' k = sref s k \/ (sref s' k = None /\ exists d, In (d, k) l /\ (d <= now s)%Z)) /\
+  (forall d k, In (d, k) l -> (d <= now s)%Z -> sref s' k = None) /\
   snd (fire s l) = filter (fun e => negb (fst e <=? now s)%Z) l.
 Proof.
   induction l as [|[due k] t IH]; intros s Hp K; cbn [fire].
-  - cbn [fst snd filter]. repeat split; auto.
+  - cbn [fst snd filter]. repeat split; auto. intros d k [].
   - cbn [filter fst]. destruct (due <=? now s)%Z eqn:Ed.
     + assert (Hcd : let s1 := fst (cache_delete s k) in
                     Kcs s1 /\ plan s1 = [] /\ heap s1 = heap s /\ pending s1 = pending s /\ supply s1 = supply s /\
@@ -227,19 +229,24 @@ Proof.
         - intros k' Hne. rewrite sref_deleted_other by exact Hne. reflexivity. }
       destruct (cache_delete s k) as [s1 ok]. cbn [fst] in Hcd. cbv zeta in Hcd.
       destruct Hcd as (K1 & P1 & H1 & Q1 & S1 & N1 & C1 & G1 & O1).
-      destruct (IH s1 P1 K1) as (K2 & P2 & H2 & Q2 & S2 & N2 & C2 & R2 & F2). cbn [negb].
-      split; [exact K2|]. split; [exact P2|]. repeat (split; [congruence|]). split.
+      destruct (IH s1 P1 K1) as (K2 & P2 & H2 & Q2 & S2 & N2 & C2 & R2 & D2 & F2). cbn [negb].
+      split; [exact K2|]. split; [exact P2|]. repeat (split; [congruence|]). split; [|split].
       * intro k'. destruct (R2 k') as [E|[E [d [Hin Hd]]]].
         -- destruct (key_eq_dec k' k) as [->|Hne].
            ++ right. split; [congruence|]. exists due. split; [left; reflexivity | apply Z.leb_le; exact Ed].
            ++ left. rewrite E. apply O1. exact Hne.
         -- right. split; [exact E|]. exists d. split; [right; exact Hin | rewrite <- N1; exact Hd].
+      * intros d k' [Hin|Hin] Hd.
+        -- injection Hin as _ <-. destruct (R2 k) as [E|[E _]]; congruence.
+        -- apply (D2 d k' Hin). rewrite N1. exact Hd.
       * rewrite F2, N1. reflexivity.
-    + destruct (IH s Hp K) as (K2 & P2 & H2 & Q2 & S2 & N2 & C2 & R2 & F2).
+    + destruct (IH s Hp K) as (K2 & P2 & H2 & Q2 & S2 & N2 & C2 & R2 & D2 & F2).
       destruct (fire s t) as [s1 rest]. cbn [fst snd negb] in *.
-      split; [exact K2|]. split; [exact P2|]. repeat (split; [assumption|]). split.
+      split; [exact K2|]. split; [exact P2|]. repeat (split; [assumption|]). split; [|split].
       * intro k'. destruct (R2 k') as [E|[E [d [Hin Hd]]]]; [left; exact E|].
         right. split; [exact E|]. exists d. split; [right; exact Hin | exact Hd].
+      * intros d k' [Hin|Hin] Hd; [|exact (D2 d k' Hin Hd)].
+        injection Hin as <- _. apply Z.leb_gt in Ed. lia.
       * rewrite F2. reflexivity.
 Qed.
 
@@ -249,7 +256,7 @@ Lemma fire_due_eff s : plan s = [] -> Kcs s -> PRs s ->
 Proof.
   intros Hp K P. cbv zeta. unfold fire_due.
   assert (K0 : Kcs (set_pending s [])) by (eapply Kcs_same; [| | |exact K]; reflexivity).
-  destruct (fire_eff (pending s) (set_pending s []) Hp K0) as (K1 & P1 & H1 & Q1 & S1 & N1 & C1 & R1 & F1).
+  destruct (fire_eff (pending s) (set_pending s []) Hp K0) as (K1 & P1 & H1 & Q1 & S1 & N1 & C1 & R1 & D1 & F1).
   destruct (fire (set_pending s []) (pending s)) as [s1 rest]. cbn [fst snd] in *. sst.
   assert (E : eff_fire s (set_pending s1 (pending s1 ++ rest))).
   { apply mkEffFire; sst; try assumption. rewrite Q1, F1. reflexivity. }
